@@ -32,14 +32,17 @@ pub struct Response {
     pub body: Vec<u8>,
     /// declare this Content-Length instead of body.len() (short-body fault)
     pub declared_len: Option<usize>,
+    /// deliver the body in several TCP writes separated by a short pause, cut at these offsets
+    /// (environment answer: how the transport fragments the body)
+    pub split_at: Vec<usize>,
 }
 
 impl Response {
     pub fn new(status: u16, body: Vec<u8>) -> Self {
-        Response { status, headers: vec![], body, declared_len: None }
+        Response { status, headers: vec![], body, declared_len: None, split_at: vec![] }
     }
     pub fn xml(status: u16, body: String) -> Self {
-        Response { status, headers: vec![("Content-Type".into(), "application/xml".into())], body: body.into_bytes(), declared_len: None }
+        Response { status, headers: vec![("Content-Type".into(), "application/xml".into())], body: body.into_bytes(), declared_len: None, split_at: vec![] }
     }
     pub fn header(mut self, k: &str, v: &str) -> Self {
         self.headers.push((k.into(), v.into()));
@@ -168,7 +171,22 @@ fn serve(mut s: TcpStream, handler: &Arc<Mutex<Option<Handler>>>) {
     out.push_str("Connection: close\r\n\r\n");
     let _ = s.write_all(out.as_bytes());
     if !no_body {
-        let _ = s.write_all(&resp.body);
+        if resp.split_at.is_empty() {
+            let _ = s.write_all(&resp.body);
+        } else {
+            let _ = s.flush();
+            let mut cuts: Vec<usize> = resp.split_at.iter().copied().filter(|c| *c > 0 && *c < resp.body.len()).collect();
+            cuts.sort();
+            cuts.dedup();
+            let mut at = 0;
+            std::thread::sleep(std::time::Duration::from_millis(3));
+            for c in cuts.into_iter().chain(std::iter::once(resp.body.len())) {
+                let _ = s.write_all(&resp.body[at..c]);
+                let _ = s.flush();
+                at = c;
+                std::thread::sleep(std::time::Duration::from_millis(3));
+            }
+        }
     }
     let _ = s.flush();
     let _ = s.shutdown(std::net::Shutdown::Both);
